@@ -5,6 +5,7 @@
 pub mod coq;
 pub mod rng;
 pub mod fixtures;
+pub mod http;
 
 pub use rng::Rng;
 
